@@ -499,6 +499,12 @@ func pParseReal(data []byte) string {
 			ch <- "err:other"
 			return
 		}
+		// pgproto3 hands the client a view into its read buffer that is only valid until the next Receive:
+		// the next message overwrites these bytes while earlier changes are still queued downstream. The
+		// decoded change must not alias them, so the input is overwritten before the result is looked at.
+		for i := range data {
+			data[i] = 'Z'
+		}
 		pr := wm.Pr
 		cols := make(map[string]parserCV, len(pr.Columns))
 		for k, v := range pr.Columns {
